@@ -171,8 +171,12 @@ def _parseInventoryLine(line: str) -> Tuple[str, str, int, str, str]:
     if prio_idx + 1 >= len(parts):
         raise ValueError("Location column is missing")
 
-    name = ' '.join(parts[: prio_idx - 1])
-    typ = parts[prio_idx - 1]
+    # Columns can be separated by more than one space.
+    typ_idx = prio_idx - 1
+    while typ_idx > 0 and not parts[typ_idx]:
+        typ_idx -= 1
+    name = ' '.join(parts[:typ_idx]).rstrip(' ')
+    typ = parts[typ_idx]
     location = parts[prio_idx + 1]
     display = ' '.join(parts[prio_idx + 2 :])
     if not display:
